@@ -154,6 +154,7 @@ structure EP where
   closing : Option ExitRes := none  -- winding down, waiting for the peer to end the connection
   srcEnded : Bool := false      -- the source has yielded `None` or an error
   retryq : List Nat := []       -- rejected open requests whose futures have not run again yet
+  doneq : List (Nat × Nat) := [] -- answered open requests (req, obj) whose futures have not run yet
   muxAlive : Bool := true       -- the `Multiplexor` handle exists
   dead : Bool := false          -- the task has finished
 deriving Repr
@@ -305,13 +306,13 @@ def processFrame (e : EP) (f : Frame) (ignoreBind : Bool) : EP × List Ev × Opt
     | some (.requested req) =>
       -- ack_recv_new_stream, task.rs:669-683
       let i := e.objs.length
-      let h := e.handles.length
       let e := { e with objs := e.objs ++ [newObj e.opts fid n [] 0],
                         flows := insert e.flows fid (.established i) }
       match e.opens.find? (·.req = req) with
       | some _ =>
-        ({ e with handles := e.handles ++ [i], opens := e.opens.filter (·.req ≠ req) },
-         [.openDone req (.ok h)], none)
+        -- the oneshot is answered; the requesting future picks the stream up when it runs next
+        -- (`runDone`, in the order the futures were spawned)
+        ({ e with doneq := e.doneq ++ [(req, i)], opens := e.opens.filter (·.req ≠ req) }, [], none)
       | none => (e, [], some .sendStream)
     | some (.bindRequested _) => (e.enqFrame (.reset fid), [], none)
     | none => (e.enqFrame (.reset fid), [], none)
@@ -496,13 +497,28 @@ def runRetries (e : EP) : List Nat → EP × List Ev
       let (e, evs') := runRetries e rest
       (e, evs ++ evs')
 
+/-- Insert a (req, obj) pair into a list sorted by request number. -/
+def insertDone (x : Nat × Nat) : List (Nat × Nat) → List (Nat × Nat)
+  | [] => [x]
+  | y :: ys => if x.1 ≤ y.1 then x :: y :: ys else y :: insertDone x ys
+
+/-- The answered open futures return their streams, in spawn order: each gets the next handle. -/
+def runDone (e : EP) : List (Nat × Nat) → EP × List Ev
+  | [] => (e, [])
+  | (req, i) :: rest =>
+    let h := e.handles.length
+    let (e, evs) := runDone { e with handles := e.handles ++ [i] } rest
+    (e, Ev.openDone req (.ok h) :: evs)
+
 /-- After any stimulus: run the task to quiescence and hand the outbound queue to the sink; then the
     open futures that were rejected run again, and the task sends what they queued. -/
 def settle (e : EP) : EP × List Ev :=
   let (e, evs) := settleLoop (e.inbox.length + e.droppedq.length + 2) e []
   let wires1 := if e.dead then [] else e.outq.map Ev.wire
   let e := if e.dead then e else { e with outq := [] }
+  let (e, evs0) := runDone { e with doneq := [] } (e.doneq.foldr insertDone [])
   let (e, evs2) := runRetries { e with retryq := [] } (sortNat e.retryq)
+  let evs2 := evs0 ++ evs2
   let wires2 := if e.dead then [] else e.outq.map Ev.wire
   let e := if e.dead then e else { e with outq := [] }
   (e, evs ++ wires1 ++ evs2 ++ wires2)
